@@ -409,6 +409,13 @@ func (x *Exec) callFunction(caller *Frame, fn *ssa.Function, args []Value, binds
 		return x.zeroResults(fn.Signature)
 	}
 	name := fn.String()
+	if fn.Signature.Recv() != nil && len(args) > 0 && args[0] == nil {
+		// the receiver is an undefined value: it was read from a slice cell beyond the written length or from a map
+		// entry that is absent on this path, i.e. the path guard is unsatisfiable although not syntactically false.
+		// Executing the body would chase undefined fields for ever (recursive methods).
+		x.warnings["method call on an undefined receiver skipped (infeasible path)"]++
+		return x.zeroResults(fn.Signature)
+	}
 	if fn.Synthetic == "package initializer" && caller != nil && caller.fn != nil && caller.fn.Synthetic == "package initializer" {
 		// dependency initialisers are run lazily, on first access to one of their globals
 		return nil
@@ -436,7 +443,15 @@ func (x *Exec) callFunction(caller *Frame, fn *ssa.Function, args []Value, binds
 	}
 	x.depth++
 	if x.depth > 80 {
-		notEncodable("call depth exceeded at %s", name)
+		chain := ""
+		for f, n := caller, 0; f != nil && n < 100; f, n = f.caller, n+1 {
+			chain += " <- " + f.fn.Name()
+		}
+		recv := ""
+		if len(args) > 0 {
+			recv = " first argument " + describe(args[0])
+		}
+		notEncodable("call depth exceeded at %s%s%s", name, recv, chain)
 	}
 	x.funcs[name]++
 	fr := &Frame{fn: fn, env: map[ssa.Value]Value{}, entry: g, edge: map[[2]int]*Term{}, hdr: map[*ssa.BasicBlock]*Term{}, caller: caller, callPos: p}
